@@ -13,7 +13,7 @@ func (bc *BlockChain) VerifC06HasSnapshots() bool { return bc.snaps != nil }
 // that the checker is about to drop (one chain object per enumerated execution).
 func (bc *BlockChain) VerifC06Release() {
 	if bc.snaps != nil {
-		snapshot.VerifC06Release(bc.snaps)
+		snapshot.VerifC06Release(bc.snaps, !bc.stopping.Load())
 	}
 	if bc.triedb != nil {
 		bc.triedb.VerifC06Release()
